@@ -1,6 +1,10 @@
 package main
 
-import "golang.org/x/tools/go/ssa"
+import (
+	"sort"
+
+	"golang.org/x/tools/go/ssa"
+)
 
 func init() {
 	for _, id := range []string{"C01", "C03", "C04", "C05", "C07", "C08", "C09", "C11", "C12", "C13", "C14", "C15", "C16", "C17", "C18", "C19", "C20"} {
@@ -17,13 +21,28 @@ func checkFormulaProperty(p *Program, c *Check, id string) {
 		"per-loop continue condition / early exits / (init, step) of every loop-carried value, function literals) and compared with the value graph of a reference implementation written from the property statement " +
 		"(/verif/spec, loaded as an in-memory overlay; never compiled into or run with the repository). Numeric terms are normalised as polynomials over the reals, guards by case analysis over their atomic comparisons, " +
 		"so re-association, renamed locals, reordered commutative operands, if/else vs early return and equivalent comparison forms are accepted while a changed operator, operand, field, constant, guard direction or strictness, " +
-		"call argument role, loop bound or effect order is a mismatch. " + e5Explanation[id]
+		"call argument role, loop bound or effect order is a mismatch. " + e5Explanation[id] +
+		" Aliasing, which the value graph abstracts from, is decided separately by two reference-free SSA rules with interprocedural summaries: OWN-3 (a slice value is the base of at most one append - builtin or appending callee - per activation path) and OWN-4 (the address of a variable declared outside a loop and assigned inside it is not stored inside that loop, directly or through a callee that returns or stores its parameter)."
 	c.NotDecided = e5NotDecided[id] + "; numeric accuracy (terms are compared over the reals); the emergent behaviour of value-dependent loops beyond their per-iteration transfer functions; anything the reference implementations in /verif/spec state wrongly"
 	c.Assumptions = append(c.Assumptions,
 		"real arithmetic: floating-point rounding, overflow and NaN propagation are not modelled",
 		"the reference implementations in /verif/spec state the property's formulas correctly (reviewed by hand against properties.jsonl)",
-		"callees are compared by identity: each anchored callee has its own obligation")
+		"callees are compared by identity: each anchored callee has its own obligation",
+		"OWN-3/OWN-4: functions outside the repository neither append to nor retain their arguments; closures capturing a per-iteration variable are left to E5")
 	ruleE5(p, c, 1)
+	if id != "C09" {
+		// aliasing rules on the functions anchored in this property (C09 runs them on the whole request path)
+		var af []*ssa.Function
+		for k := range c.anchoredFuncs {
+			if f := p.Func(k); f != nil && !p.isSpec(f) {
+				af = append(af, f)
+				af = append(af, f.AnonFuncs...)
+			}
+		}
+		sort.Slice(af, func(i, j int) bool { return funcKey(af[i]) < funcKey(af[j]) })
+		ruleOWN3(p, c, af)
+		ruleOWN4(p, c, af)
+	}
 	if extra, ok := extraRules[id]; ok {
 		extra(p, c)
 	}
@@ -57,6 +76,8 @@ var extraRules = map[string]func(p *Program, c *Check){
 		sh := NewSharedInfo(p)
 		ruleOWN1(p, c, sh, funcs)
 		ruleOWN2(p, c, funcs)
+		ruleOWN3(p, c, funcs)
+		ruleOWN4(p, c, funcs)
 		// "no history": nothing reachable from a handler writes memory that outlives the request
 		ruleSHR1(p, c, sh, p.requestPath(true))
 		ruleSHR4(p, c)
